@@ -475,6 +475,8 @@ def float32_probe(ctor, V):
             x, y = np.asarray(getattr(a, n), float), np.asarray(getattr(b, n), float)
         except Exception:  # noqa: BLE001
             continue
+        if not np.all(np.isfinite(y)):      # (single-precision rounding flattened the solid: there is no solid to compare)
+            continue
         if x.shape != y.shape or not np.all(np.abs(x - y) <= 1e-10 * R ** k):
             probs.append("%s of the solid built from a float32 array: %s, from the same values as float64: %s" % (n, np.ravel(x)[:6].tolist(), np.ravel(y)[:6].tolist()))
     return probs
